@@ -175,7 +175,7 @@ PROPS = {
         'needs_cli': True,
         'level_text': 'Partial proof. Determinism of the model is by construction (optimise / replica / cliRun are functions of state, settings and seed). Proved: from the source as it is now, Clone of Cell2/OccupiedSite allocates a fresh cell per parameter, no static/thread_local/Rc/Arc/RefCell/Mutex/Atomic exists, the only unsafe items are the four in basis.rs, a set seed bypasses entropy; noninterference: k replicas stepping over ONE shared heap under ANY interleaving through handles on pairwise disjoint cells with local scores end exactly as if run alone and never write a cell of another replica or of the original; every stage carries the replica index as seed; the reduction is bracketing-independent (C10). Not exhibited by the model: data races on the unsynchronised UnsafeCell, the memory model, rayon scheduling - covered empirically by thread sweeps of the real binary and a thread-pool oracle. The ordering the reduction uses (PartialEq / PartialOrd / Ord of both state types) is regenerated from the source; the model reduction step is std::cmp::max for it (TieCmp).',
         'level_note': 'Trusted: soundness of the hand-written unsafe impl Send/Sync given that each replica owns its cells (justified at source level by clone_fresh + move semantics); rayon; Lean kernel + 3 axioms; translator for Clone bodies and the shared-state inventory.',
-        'technique': 'Lean 4 noninterference proof over a shared heap with arbitrary schedules + translator-pinned source inventory + differential correspondence of whole CLI runs under thread sweeps',
+        'technique': 'Lean 4 noninterference proof over a shared heap with arbitrary schedules + translator-pinned source inventory + source-to-Lean translation of the ordering of states with a tie theorem + differential correspondence of whole CLI runs under thread sweeps',
         'theorems': ['Proofs.C09', 'Proofs.TieCmp'],
         'families': [('cli', 25, 400), ('opt', 800, 10000)],
         'search': (25, 600),
@@ -187,7 +187,7 @@ PROPS = {
         'needs_cli': True,
         'level_text': 'Full proof about the model of analyse_state (stage overrides and reduction regenerated from main.rs and pinned): the written structure is one of the replica results, its score is at least every replica\'s and equals the logged value; any bracketing of the reduction returns the last maximal element; replica i does not depend on the replication count, hence prefix monotonicity; optimisation changes parameters only, so the written structure carries the requested group name, family, shape, kind and the group\'s full number of copies; zero replications is an error. Table labels equal lookup names (kernel-decided on the regenerated table). The ordering of states is regenerated from the source and the model reduction step is std::cmp::max for it (TieCmp: ordered by score, right operand on ties, None = the panicking unwrap); the shape constructors the CLI calls are regenerated too (TieCtor).',
         'level_note': 'Trusted: structopt/clap argument parsing; rayon; Lean kernel + 3 axioms; whole CLI runs of the real binary are compared with the model bit for bit (cli family).',
-        'technique': 'Lean 4 proof over the pipeline model + translator-pinned stages/reduction/labels + differential correspondence with the real binary',
+        'technique': 'Lean 4 proof over the pipeline model + translator-pinned stages/reduction/labels + source-to-Lean translation of the ordering of states and of the shape constructors with tie theorems + differential correspondence with the real binary',
         'theorems': ['Proofs.C10', 'Proofs.TieCmp', 'Proofs.TieCtor'],
         'families': [('cli', 30, 500), ('tables', 14, 14)],
         'search': (25, 600),
@@ -300,7 +300,7 @@ PROPS = {
     'C16': {
         'level_text': 'Full proof. The property quantifies over a finite space (7 tables, <=4 operations, <=16 products each); it is decided completely by the Lean kernel (decide +kernel at exact Rat) on tables regenerated from the current text of src/wallpaper.rs and parsed by the model parser, against the ITA reference; lifted to explicitly quantified theorems. The parser the tables are read with is the regenerated from_operations (TieParse).',
         'level_note': 'Trusted: Lean kernel + 3 standard axioms; reference tables typed from International Tables A; translator pvtx.py (validated by the tables family: generated tables vs get_wallpaper_group + WyckoffSite::new on the real crate); model parser tied to from_operations by the parse family (bit-exact).',
-        'technique': 'Lean 4 kernel decision (decide +kernel) over translator-regenerated tables + differential correspondence',
+        'technique': 'Lean 4 kernel decision (decide +kernel) over translator-regenerated tables + source-to-Lean translation of the parser with a tie theorem + differential correspondence',
         'theorems': ['Proofs.C16', 'Proofs.TieParse'],
         'families': [('tables', 14, 14), ('parse', 4000, 60000)],
         'search': (5, 20),
@@ -313,8 +313,8 @@ PROPS = {
     },
     'C17': {
         'level_text': 'Full proof of the grammar clause (every string of the inductively defined grammar parses to the affine map its expression denotes, over any field) and of totality/error clauses for all strings, about a character-level model of from_operations. The WHOLE body of from_operations (trim, split, dimension check, both loops, matrix writes, every bail) is regenerated from the source on every run and proved equal to the model parser for every input string and every scalar carrier (TieParse.from_operations_tie, core-only).',
-        'level_note': 'Trusted: Lean kernel + 3 standard axioms; the model parser is tied to Transform2::from_operations by bit-exact differential correspondence on grammar, mutated and arbitrary Unicode strings; f64 rounding of d/e outside the theorem; Rust-level absence of panics rests on the modelled control flow (index sites guarded by the dimension check).',
-        'technique': 'Lean 4 structural induction over an inductive grammar + differential correspondence',
+        'level_note': 'Trusted: Lean kernel + 3 standard axioms; the model parser is tied to Transform2::from_operations by the translation tie (TieParse) and by bit-exact differential correspondence on grammar, mutated and arbitrary Unicode strings; f64 rounding of d/e outside the theorem; Rust-level absence of panics rests on the modelled control flow (index sites guarded by the dimension check).',
+        'technique': 'Lean 4 structural induction over an inductive grammar + source-to-Lean translation of the whole parser with a tie theorem + differential correspondence',
         'theorems': ['Proofs.C17', 'Proofs.TieParse', 'Proofs.SrcC17'],
         'families': [('parse', 20000, 400000)],
         'search': (8, 120),
